@@ -1,5 +1,6 @@
 import BrushVerif.Model.Expand
 import BrushVerif.Spec.WordExp
+import BrushVerif.Model.WordParse
 /-!
 Driver for C04 and C05 (shared wire format; `Drv/C05.lean` re-exports `handle`).
 
@@ -233,7 +234,12 @@ def run1 (q : Req) (env : Env) : Str :=
         " %| D".toList ++ WordExp.domainFlags env bw
     else act q env (braceJoin bw)
 
+/-- Request `y<word>` (a single field): the word-parser model, `WordParse.parseWord`, in the canonical text
+shared with `harness/src/bin/c04.rs` (`OK <pieces>` | `ERR` | `UNSUPPORTED` = outside the modelled fragment). -/
 def handle (toks : List Str) : Str :=
+  match toks.map unesc with
+  | [('y' :: w)] => WordParse.resStr (WordParse.parseWord w)
+  | _ =>
   let q := flushArr ((toks.map unesc).foldl stepReq {})
   if q.items.isEmpty then run1 q q.env
   else joinWith " %| ".toList (q.items.map fun it => run1 q (withItem q.env it))
